@@ -36,6 +36,17 @@ norm_int!(i_norm_smallint, SqlValue::Smallint, i16);
 norm_int!(i_norm_bigint, SqlValue::Bigint, i64);
 norm_int!(i_norm_unsigned, SqlValue::Unsigned, u64);
 
+// Recorded finding KF-C02-f64-index-keys: index-independent results need DIFFERENT integers to get DIFFERENT keys on the whole i64 domain
+// (otherwise `n = 9007199254740993` through an index also returns 9007199254740992, `n > 9007199254740992` loses 9007199254740993, and
+// index order is not the column order). Strictness holds only up to 2^53 (harnesses above); this harness demands it everywhere and FAILS.
+#[kani::proof]
+fn i_norm_bigint_strict_on_full_domain() {
+    let a: i64 = kani::any(); let b: i64 = kani::any();
+    let na = dbl(&normalize_for_comparison(&SqlValue::Bigint(a)));
+    let nb = dbl(&normalize_for_comparison(&SqlValue::Bigint(b)));
+    if a < b { assert!(na < nb, "I-norm#strict_on_full_domain"); }
+}
+
 macro_rules! norm_f32 {
     ($name:ident, $ctor:path) => {
         #[kani::proof]
